@@ -246,6 +246,9 @@ def run_conc_property(pid, tier, seed, replay, *, judges, classify=None, n_quick
     if corr:
         ck.oblige("correspondence: every scheduled step, return value and final state of the implementation is reproduced by Model/Conc.v (accept)",
                   not corr_bad, "%d runs differ" % len(corr_bad))
+    unhooked = hook_coverage()
+    ck.oblige("tie: every shared-memory primitive in level.rs / statistics.rs / order_queue.rs / uuid.rs is the hooked (cfg-switched) one, "
+              "so the scheduler and Model/Conc.v's accept see every shared access (source scan)", not unhooked, "; ".join(unhooked[:4]))
     ck.oblige("judge: the property holds on every implementation run (outside listed known findings)", not judge_bad,
               "%d runs fail" % len(judge_bad))
     if extra_obligations and not replay:
@@ -284,10 +287,12 @@ def run_conc_property(pid, tier, seed, replay, *, judges, classify=None, n_quick
             pass
         ck.violation("fail", dict(kind="conc-program", program=small, schedule=conc.parse_prog(small)["sched"], why=why,
                                   original_program=line, original_schedule=k, failures=len(judge_bad)))
-    elif corr_bad or not pr["ok"]:
+    elif corr_bad or not pr["ok"] or unhooked:
         first = dict(program=corr_bad[0][0], schedule=corr_bad[0][1], difference=corr_bad[0][2]) if corr_bad else None
+        if unhooked and not corr_bad and pr["ok"]:
+            first = dict(unhooked_shared_state=unhooked)
         ck.violation("unproved", dict(kind="conc-program", program=(first or {}).get("program"), schedule=(first or {}).get("schedule"),
-                                      broken=("correspondence implementation/Model.Conc" if corr_bad else pr["failed"]),
+                                      broken=("correspondence implementation/Model.Conc" if corr_bad else (pr["failed"] or "tie: shared state outside the hooks (the schedule search cannot reach it)")),
                                       theorem=(None if pr["ok"] else "Properties/%s.v: %s" % (pid, pr["failed"])),
                                       first_disagreement=first, log=pr["log"][-1500:] if not pr["ok"] else ""),
                      note="no-failing-input-found")
